@@ -63,7 +63,10 @@ type World struct {
 	// five instants: PckCertChain, TcbInfo, QeIdentity, PckCrl, RootCaCrl
 	Times [5]time.Time
 	// ground truth for the reference model
-	LevelIdx    int // index of the TCB level the platform matches (honest: UpToDate)
+	// SerialCoincidence: the CRLs list other issuers' certificates that share a serial number with
+	// this world's certificates (still an honest world: nothing of it is revoked)
+	SerialCoincidence bool
+	LevelIdx          int // index of the TCB level the platform matches (honest: UpToDate)
 	ModLevelIdx int // index of the matching module level, -1 when the module branch is off
 }
 
@@ -362,6 +365,14 @@ func (w *World) genCollateral(r Rand) {
 	}
 	for i, n := 0, r.Draw(3); i < n; i++ {
 		w.RootCrl.Revoked = append(w.RootCrl.Revoked, randSerial(r))
+	}
+	if r.Chance(1, 3) {
+		// serial numbers are unique per issuer only: the Root CA CRL may list a certificate (issued by
+		// the root) that shares its serial number with the PCK leaf (issued by the intermediate), and
+		// the PCK CRL one that shares it with the intermediate or a TCB signer (issued by the root)
+		w.RootCrl.Revoked = append(w.RootCrl.Revoked, w.P.PCKSp.Serial)
+		w.PckCrl.Revoked = append(w.PckCrl.Revoked, w.CA.X.SerialNumber, w.A.Tcb.X.SerialNumber)
+		w.SerialCoincidence = true
 	}
 }
 
